@@ -409,6 +409,7 @@ def build(case):
             lines.append("def cap_%d(%s):" % (sid, ", ".join(s["args"])))
             lines.append("    return H_cap(%d, %s)" % (sid, kwd))
 
+    EN = ", enabled=True" if case.get("enabledExplicit") else ""
     decos = []  # per level: list of decorator source lines, outermost first
     for lv in case["levels"]:
         d = []
@@ -416,16 +417,16 @@ def build(case):
             cond_def(c)
             ee = err_expr(c)
             d.append(
-                "@icontract.ensure(cond_%d, description='c%d'%s)" % (c["id"], c["id"], ", error=%s" % ee if ee else "")
+                "@icontract.ensure(cond_%d, description='c%d'%s%s)" % (c["id"], c["id"], ", error=%s" % ee if ee else "", EN)
             )
         for s_ in lv["snaps"]:
             snap_def(s_)
-            d.append("@icontract.snapshot(cap_%d, name=%r)" % (s_["id"], s_["name"]))
+            d.append("@icontract.snapshot(cap_%d, name=%r%s)" % (s_["id"], s_["name"], EN))
         for c in lv["pre"]:
             cond_def(c)
             ee = err_expr(c)
             d.append(
-                "@icontract.require(cond_%d, description='c%d'%s)" % (c["id"], c["id"], ", error=%s" % ee if ee else "")
+                "@icontract.require(cond_%d, description='c%d'%s%s)" % (c["id"], c["id"], ", error=%s" % ee if ee else "", EN)
             )
         d.reverse()
         decos.append(d)
